@@ -2349,6 +2349,8 @@ func (c *Conn) notify(ctx context.Context, level alert.Level, desc alert.Descrip
 		}
 	}
 
+	shouldEncrypt := c.isHandshakeCompletedSuccessfully()
+
 	return c.writePackets(ctx, []*dtlsflight.Packet{
 		{
 			Record: &recordlayer.RecordLayer{
@@ -2361,8 +2363,11 @@ func (c *Conn) notify(ctx context.Context, level alert.Level, desc alert.Descrip
 					Description: desc,
 				},
 			},
-			ShouldWrapCID: c.state.ShouldWrapConnectionID(),
-			ShouldEncrypt: c.isHandshakeCompletedSuccessfully(),
+			// A tls12_cid record is a protected record by definition [RFC 9146 Section 4]. An alert
+			// that aborts the handshake after the connection IDs were learned goes out unencrypted;
+			// wrapped, the peer could not parse it and never learned why the handshake failed.
+			ShouldWrapCID: shouldEncrypt && c.state.ShouldWrapConnectionID(),
+			ShouldEncrypt: shouldEncrypt,
 		},
 	})
 }
